@@ -41,6 +41,7 @@ type tableEval struct {
 	c      *Ctx
 	leaf   func(f *Func, e ast.Expr) (tval, bool) // rule-specific operands
 	effect func(f *Func, call *ast.CallExpr) bool // statement-level calls the rule knows about (recorded or ignored)
+	field  func(base tval, name string) (tval, bool) // field of a symbolic object produced by leaf
 	why    string                                 // set when undecided
 	depth  int
 }
@@ -288,6 +289,14 @@ func (t *tableEval) expr(f *Func, e ast.Expr, env tenv) (tval, bool) {
 			if vr, ok := info.Uses[x.Sel].(*types.Var); ok && vr.Pkg() != nil {
 				return tval{Obj: vr.Pkg().Path() + "." + vr.Name()}, true
 			}
+		} else if t.field != nil {
+			saved := t.why
+			if base, ok := t.expr(f, x.X, env); ok && base.Obj != "" {
+				if v, ok := t.field(base, x.Sel.Name); ok {
+					return v, true
+				}
+			}
+			t.why = saved
 		}
 	case *ast.UnaryExpr:
 		v, ok := t.expr(f, x.X, env)
